@@ -60,6 +60,7 @@ Inductive prog : Type :=
 | IfEmpty (f : fam) (p q : prog)
 | FreeAll (f : fam) (cm : option flag)           (* for every entry e of f: ZSTD_customFree(e); entries stay (dangling) *)
 | ClearFam (f : fam)                             (* the array is gone / zeroed *)
+| Drain (src dst : fam)                          (* every entry of src is moved on top of dst (ownership transfer) *)
 | Return (ok : bool)                             (* leave the enclosing Call with status ok (false = NULL / error code) *)
 | Call (name : N) (p : prog)                     (* procedure boundary *)
 | IfErr (p q : prog)                             (* p when the last completed Call returned an error *)
@@ -75,8 +76,8 @@ Inductive err : Type :=
 
 Inductive event : Type :=
 | EvAlloc (l : N) (size : N) (zero : bool) (ok : bool)
-| EvFree (l : N)
-| EvFreeFam (f : N) (n : nat)
+| EvFree (l : N) (i : nat)
+| EvFreeFam (f : N) (ids : list nat)
 | EvCall (name : N)
 | EvRet (ok : bool).
 
@@ -159,7 +160,7 @@ Fixpoint run (o : oracle) (p : prog) (s : state) : state * bool :=
   | Free l cm =>
       match sget s l with
       | None => (s, false)
-      | Some i => (add_ev (free_id l cm i s) (EvFree l), false)
+      | Some i => (add_ev (free_id l cm i s) (EvFree l i), false)
       end
   | SetNull l => (upd_slots s (set l None (slots s)), false)
   | Move dst src =>
@@ -190,8 +191,13 @@ Fixpoint run (o : oracle) (p : prog) (s : state) : state * bool :=
   | IfEmpty f p q => match fget s f with [] => run o p s | _ :: _ => run o q s end
   | FreeAll f cm =>
       let ids := fget s f in
-      (add_ev (fold_left (fun st i => free_id f cm i st) ids s) (EvFreeFam f (length ids)), false)
+      (add_ev (fold_left (fun st i => free_id f cm i st) ids s) (EvFreeFam f ids), false)
   | ClearFam f => (upd_fams s (set f [] (fams s)), false)
+  | Drain src dst =>
+      match fget s src with
+      | [] => (s, false)
+      | st => (upd_fams s (set src [] (set dst (st ++ fget s dst) (fams s))), false)
+      end
   | Return ok => (add_ev (upd_status s ok) (EvRet ok), true)
   | Call name p =>
       let (s1, _) := run o p (add_ev (upd_status s true) (EvCall name)) in (s1, false)
@@ -348,6 +354,16 @@ Fixpoint aexec (fuel : nat) (canfail : bool) (p : prog) (a : astate) : option le
       | FDang => None
       end
   | ClearFam f => match afget a f with FOwn => None | _ => Some [(afset a f FEmpty, false)] end
+  | Drain src dst =>
+      if N.eqb src dst then None else
+      match afget a src with
+      | FEmpty => Some [(a, false)]
+      | FOwn => match afget a dst with
+                | FDang => None
+                | _ => Some [(afset (afset a dst FOwn) src FEmpty, false)]
+                end
+      | FDang => None
+      end
   | Return ok => Some [(astset a ok, true)]
   | Call _ p =>
       match aexec fuel canfail p (astset a true) with
